@@ -10,6 +10,7 @@
 //@ fn src/app.rs :: Router :: querier
 //@   ret r
 //@   ensures [C10.router.querier_snapshot] r.snap() == (storage.view(), *block_info)
+//@   ensures [C10.router.querier_self] r.storage.view() == storage.view() && *r.block_info == *block_info && forall|st: St, b: BlockInfo, req: QueryRequest<CustomT::QueryT>| #[trigger] r.router.query_sem(st, b, req) == self.query_sem(st, b, req)
 //@ end
 }
 
@@ -222,6 +223,19 @@ pub proof fn lemma_run_msgs_one<E, Q, R: CosmosRouter<E, Q>>(router: R, s0: St, 
 //@   ret r
 //@   requires [C20.app.init_pre] forall|r0: &mut Router<BankT, CustomT, WasmT, StakingT, DistrT, IbcT, GovT, StargateT>, a: &ApiT, st: &mut dyn Storage| #[trigger] init_fn.requires((r0, a, st))
 //@   ensures [C20.app.init_modules] exists|r0: &mut Router<BankT, CustomT, WasmT, StakingT, DistrT, IbcT, GovT, StargateT>, a: &ApiT, st: &mut dyn Storage| #[trigger] init_fn.ensures((r0, a, st), r) && *r0 == old(self).router && *a == old(self).api && st.view() == old(self).storage.view() && final(self).router == *final(r0) && final(self).storage.view() == final(st).view() && final(self).api == old(self).api && final(self).block == old(self).block
+//@ end
+}
+
+// ---- App as a Querier (App::wrap): answers from the committed store and the current block
+//@ impl_open src/app.rs :: Querier for App
+//@   replace_re "impl<BankT, ApiT, StorageT, CustomT, WasmT, StakingT, DistrT, IbcT, GovT, StargateT> Querier\\s*for App<" => "impl<BankT, ApiT, StorageT, CustomT, WasmT, StakingT, DistrT, IbcT, GovT, StargateT> App<"
+//@   replace "CustomT::ExecT: CustomMsg + DeserializeOwned + 'static," => ""
+//@   replace "CustomT::QueryT: CustomQuery + DeserializeOwned + 'static," => ""
+//@ end
+//@ fn src/app.rs :: Querier for App :: raw_query
+//@   ret r
+//@   ensures [C10.app.raw_query,C17] raw_query_post::<CustomT::ExecT, CustomT::QueryT>(&self.router, self.storage.view(), self.block, bin_request@, r)
+//@   replace "&self.storage" => "as_dyn_ref(&self.storage)"
 //@ end
 }
 
